@@ -38,16 +38,9 @@ Definition spec_dq (p : bytes) (index : Z) (mobs : string) (merr : bool) : strin
         | Some (ls, n) =>
             if Nat.ltb NAME_LIMIT (wire_len ls) then mobs            (* over-long name: property silent *)
             else if Nat.ltb 254 (ref_depth (S (List.length p)) p off) then mobs   (* beyond the recursion bound *)
-            else match ls with
-                 | [] => if merr then mobs                                   (* root question: outside the quantified domain *)
-                         else match u16_at p n, u16_at p (n + 2) with
-                              | Some t, Some c => show_question (mkQ (dotted ls) t c, (n + 4)%nat)
-                              | _, _ => reject_as merr mobs
-                              end
-                 | _ => match u16_at p n, u16_at p (n + 2) with
-                        | Some t, Some c => show_question (mkQ (dotted ls) t c, (n + 4)%nat)
-                        | _, _ => reject_as merr mobs
-                        end
+            else match u16_at p n, u16_at p (n + 2) with
+                 | Some t, Some c => show_question (mkQ (dotted ls) t c, (n + 4)%nat)
+                 | _, _ => reject_as merr mobs
                  end
         end
   | None => mobs
